@@ -3,14 +3,14 @@
 (* point x budget x callback sets x one to three run() calls.                 *)
 EXTENDS Basic, TLC, Json
 
-CONSTANTS MaxK, Objs, MaxRuns, MaxCb, Emit
+CONSTANTS MaxK, Objs, MaxRuns, MaxCb, MaxFun, Emit
 
 Items == [kind : {"F", "G", "FG"}, obj : Objs, feas : BOOLEAN, fail : BOOLEAN]
 Scripts == UNION {[1..n -> Items] : n \in 0..MaxK}
 
 MCInit ==
   /\ \E script \in Scripts : \E runs \in 1..MaxRuns : \E nA \in 0..1 : \E nR \in 0..MaxCb : \E lateR \in 0..1 :
-     \E maxfun \in 0..2 : \E abortAt \in 0..(MaxK * MaxRuns + 1) : \E redir \in BOOLEAN : \E tolnone \in BOOLEAN :
+     \E maxfun \in 0..MaxFun : \E abortAt \in 0..(MaxK * MaxRuns + 1) : \E redir \in BOOLEAN : \E tolnone \in BOOLEAN :
        /\ (nA = 0 => abortAt = 0)
        /\ ~(redir /\ tolnone)                 \* two orthogonal switches, varied one at a time
        /\ (runs = 1 => lateR = 0)
